@@ -197,6 +197,9 @@ func Minimise(t *testing.T, d *Desc, prop, class string, maxTrials int) (*Desc, 
 				func(x *ExecD) bool { v := len(x.Stuck) > 0; x.Stuck = nil; return v },
 				func(x *ExecD) bool { v := x.DelaySteps > 0; x.DelaySteps /= 2; return v },
 				func(x *ExecD) bool { v := x.Conc > 1; x.Conc = 1; return v },
+				func(x *ExecD) bool { v := x.SlowEmit; x.SlowEmit = false; return v },
+				func(x *ExecD) bool { v := x.SharedErr; x.SharedErr = false; return v },
+				func(x *ExecD) bool { v := x.CtxKind != 0; x.CtxKind = 0; return v },
 			)
 			for _, m := range muts {
 				if trials >= maxTrials {
